@@ -79,6 +79,9 @@ impl Property for C01 {
         }
         v
     }
+    fn fuzz_gen(&self, g: &mut G) -> Option<Value> {
+        Some(if g.chance(2, 3) { gen_w_case(g) } else { gen_f_case(g) })
+    }
     fn prepare(&self, case_v: &Value) -> Unit {
         let case = match parse_case(case_v) {
             Ok(c) => c,
